@@ -171,10 +171,136 @@ def gen_decode(rng, tier):
             yield Case(name + ".roundtrip", ["p:%s:%x" % (name, b)])
 
 
+# ------------------------------------------------------------------ primitive <-> big integers
+
+def prim_range(ty):
+    if ty in UNSIGNED:
+        return 0, (1 << UNSIGNED[ty]) - 1
+    b = SIGNED[ty]
+    return -(1 << (b - 1)), (1 << (b - 1)) - 1
+
+
+def gen_prim(rng, tier):
+    n = 3 if tier == "quick" else 40
+    for ty in list(UNSIGNED) + list(SIGNED):
+        lo, hi = prim_range(ty)
+        bits = UNSIGNED.get(ty) or SIGNED[ty]
+        vals = {0, 1, hi, hi - 1, lo, hi >> 1, (hi >> 1) + 1, 1 << (bits // 2)}
+        if lo < 0:
+            vals |= {-1, lo + 1, -(1 << (bits // 2))}
+        for _ in range(n):
+            vals.add(rng.randrange(lo, hi + 1))
+            vals.add(rng.randrange(lo, hi + 1) >> rng.randrange(0, bits))
+        for v in sorted(vals):
+            if lo <= v <= hi:
+                for k in "uir":
+                    yield Case(k + ".from", [prim(ty, v)])
+        # big -> primitive: in range, at the edges, one past, word/dword/heap boundaries
+        xs = {0, 1, hi, hi + 1, hi - 1, lo, lo - 1, lo + 1, 2 * hi + 1, 2 * hi + 2, -hi, -hi - 1, -hi - 2,
+              (1 << 64) - 1, 1 << 64, (1 << 64) + 1, (1 << 127) - 1, 1 << 127, (1 << 127) + 1,
+              (1 << 128) - 1, 1 << 128, (1 << 128) + 1, (1 << 128) + hi, (1 << 192) + 5, (1 << 64) + hi}
+        for _ in range(n):
+            xs.add(rng.randrange(lo, hi + 1))
+            xs.add(nat_pattern(rng, rng.choice([1, 2, 3, 4]), rng.choice(PATTERNS)))
+            xs.add(hi + 1 + rng.getrandbits(rng.randrange(1, 140)))
+        for x in sorted(xs):
+            if x >= 0:
+                yield Case("u.to", [ty, hx(x)])
+            yield Case("i.to", [ty, hx(x)])
+            yield Case("i.to", [ty, hx(-x)])
+    yield Case("u.from", ["p:bool:0"]); yield Case("u.from", ["p:bool:1"])
+    yield Case("i.from", ["p:bool:0"]); yield Case("i.from", ["p:bool:1"])
+    for x in [0, 1, -1, (1 << 128) - 1, -(1 << 128), 1 << 200, -(1 << 200) - 1]:
+        yield Case("i.to.ubig", [hx(x)])
+        if x >= 0:
+            yield Case("u.to.ibig", [hx(x)])
+
+
+# ------------------------------------------------------------------ big integers <-> floats
+
+def gen_int_float(rng, tier, fixed):
+    quick = tier == "quick"
+    xs = set()
+    ks = list(range(0, 1101))
+    if quick:
+        ks = [k for k in ks if k < 70 or k in (103, 104, 127, 128, 129, 130, 191, 192, 193, 970, 971, 1022, 1023, 1024, 1025, 1100)
+              or rng.random() < 0.08]
+    for k in ks:
+        xs |= {1 << k, (1 << k) - 1, (1 << k) + 1}
+        for p in (24, 53):
+            if k >= p:
+                h = 1 << (k - p)          # half ulp of 2^k
+                xs |= {(1 << k) + h, (1 << k) + h - 1, (1 << k) + h + 1, (1 << k) + 3 * h, (1 << k) + 3 * h - 1,
+                       (1 << k) + 3 * h + 1, (1 << (k + 1)) - h, (1 << (k + 1)) - h - 1, (1 << (k + 1)) - h + 1}
+                if k - p >= 2:
+                    xs |= {(1 << k) + (h >> 1), (1 << k) + h + (h >> 1), (1 << k) + (h >> 2), (1 << k) + h + (h >> 2)}
+    # every bit length x {boundary, tie, near tie, random} at the rounding position
+    for n in (range(1, 200) if quick else range(1, 1100)):
+        if quick and n > 140 and rng.random() < 0.7:
+            continue
+        for p in (24, 53):
+            for a in cut_mantissas(rng, n, max(n - p, 0), per=1):
+                if quick and rng.random() < 0.7:
+                    continue
+                xs.add(a)
+    xs |= {0, 1, 2, (1 << 128) - 1, (1 << 128) - 2, (1 << 128) - (1 << 74), (1 << 128) - (1 << 74) - 1, (1 << 128) - (1 << 75),
+           (1 << 128) - (1 << 103), (1 << 128) - (1 << 103) - 1, (1 << 128) - (1 << 104), (1 << 1024) - (1 << 970),
+           (1 << 1024) - (1 << 970) - 1, (1 << 1024) - (1 << 971), (1 << 1024) - 1, 1 << 1024, (1 << 2000) + 1}
+    for x in sorted(xs):
+        for ty in ("f32", "f64"):
+            sgn = rng.random()
+            if sgn < 0.6:
+                yield Case("u.to_" + ty, [hx(x)])
+                if not fixed:
+                    yield Case("u.to_%s.asis" % ty, [hx(x)])
+            else:
+                v = -x if rng.random() < 0.6 else x
+                yield Case("i.to_" + ty, [hx(v)])
+                if not fixed:
+                    yield Case("i.to_%s.asis" % ty, [hx(v)])
+    # exact-or-refused
+    for ty, p in (("f32", 24), ("f64", 53)):
+        ys = set()
+        for k in range(0, 70 if quick else 140):
+            ys |= {1 << k, (1 << k) + 1, (1 << k) - 1, 3 << k, (1 << k) + (1 << max(k - p + 1, 0)), (1 << k) + (1 << max(k - p, 0))}
+        ys |= {0, (1 << p) - 1, 1 << p, (1 << p) + 1, (1 << p) + 2, (1 << (p + 1)), (1 << (p + 1)) + 2, 1 << 200, 1 << 1030}
+        for y in sorted(ys):
+            yield Case("u.tryto_" + ty, [hx(y)])
+            yield Case("i.tryto_" + ty, [hx(-y if rng.random() < 0.5 else y)])
+    # float -> integer
+    for ty in ("f32", "f64"):
+        f = FMT[ty]
+        MB, EB = f["MB"], f["EB"]
+        W = 1 + EB + MB
+        bias = (1 << (EB - 1)) - 1
+        pats = set(float_patterns(rng, ty, 100 if quick else 3000))
+        for s in (0, 1):
+            for E in list(range(bias - 3, bias + MB + 4)) + [bias + 63, bias + 64, bias + 127, bias + 128, 1, 0]:
+                for M in [0, 1, 1 << (MB - 1), (1 << MB) - 1, 1 << max(0, min(MB - 1, bias + MB - E)),
+                          1 << max(0, min(MB - 1, bias + MB - E - 1)), rng.getrandbits(MB)]:
+                    if 0 <= E < (1 << EB):
+                        pats.add((s << (W - 1)) | (E << MB) | M)
+        for b in sorted(pats):
+            a = "p:%s:%x" % (ty, b)
+            yield Case("u.from_" + ty, [a]); yield Case("i.from_" + ty, [a])
+            if not fixed_from_float():
+                yield Case("u.from_%s.asis" % ty, [a]); yield Case("i.from_%s.asis" % ty, [a])
+
+
+def fixed_from_float():
+    try:
+        src = open("/repo/integer/src/convert.rs").read()
+    except OSError:
+        return False
+    return "result >>= (-exp) as usize;" not in src
+
+
 def generate(rng, tier):
     fixed = tree_is_fixed()
     yield from gen_encode(rng, tier, fixed)
     yield from gen_decode(rng, tier)
+    yield from gen_prim(rng, tier)
+    yield from gen_int_float(rng, tier, fixed)
 
 
 def nontrivial(c):
